@@ -40,7 +40,7 @@ ONCE_DOC = "Summary of %s here.\n  @note: x\n@note: y"
 CALL_TIMEOUT = 20          # seconds per entry-point call ("terminates")
 # the model describes the tree as it is: both known deviations present. VERIF_C08_MODEL=fixed describes the tree with
 # proposed_fixes/C08-*.diff applied (used to try the fixes; flip the defaults when they are committed)
-_FIXED = os.environ.get("VERIF_C08_MODEL") == "fixed"
+_FIXED = os.environ.get("VERIF_C08_MODEL") != "prefix"      # the two defects are repaired in /repo (dac0793, 1bcc148)
 MODEL_CONSTANTS = "  PoisonedCache = %s\n  TocGuarded = %s\n" % (("FALSE", "TRUE") if _FIXED else ("TRUE", "FALSE"))
 
 
